@@ -468,6 +468,39 @@ Lemma overcredit_shortfall_refuted : exists reward cap1 cap2, cap1 + cap2 = PREC
   credit_two reward cap1 cap2 = Ok (reward + 1) /\ pay_from_collector reward (reward + 1) = Panic "insufficient-funds".
 Proof. exists 3, HALF, HALF. split; [reflexivity|]. split; vm_compute; reflexivity. Qed.
 
+(* recovery holders: with exact-denom listing (duplicate-free holders whose balances sum to at most the supply) the
+   truncated allocations never exceed the amount *)
+Lemma rr_sum_floor_le : forall amount supply (bal : Z -> Z) (l : list Z), 0 <= amount -> 0 < supply -> (forall h, 0 <= bal h) ->
+  zsum (map (fun h => Z.quot (amount * bal h) supply) l) * supply <= amount * zsum (map bal l)
+  /\ 0 <= zsum (map (fun h => Z.quot (amount * bal h) supply) l).
+Proof.
+  intros amount supply bal l Ha Hs Hb. induction l as [|h l [IH1 IH2]]; [simpl; lia|].
+  cbn [map zsum fold_right]. fold (zsum (map (fun h0 => Z.quot (amount * bal h0) supply) l)). fold (zsum (map bal l)).
+  specialize (Hb h). assert (0 <= amount * bal h) by nia.
+  rewrite Z.quot_div_nonneg by lia.
+  pose proof (Z.mul_div_le (amount * bal h) supply Hs). pose proof (Z.div_pos (amount * bal h) supply ltac:(lia) Hs). nia.
+Qed.
+Lemma rr_allocate_safe : forall amount supply bal listed, 0 <= amount -> 0 < supply -> (forall h, 0 <= bal h) ->
+  zsum (map bal listed) <= supply -> is_panic (rr_allocate amount supply bal listed) = false.
+Proof.
+  intros amount supply bal listed Ha Hs Hb Hsum. unfold rr_allocate.
+  destruct (rr_sum_floor_le amount supply bal listed Ha Hs Hb) as [H1 H2].
+  destruct (amount <? _) eqn:E; [|reflexivity]. exfalso. apply Z.ltb_lt in E. nia.
+Qed.
+Lemma rr_by_flag : forall b : bool,
+  if b then (forall d, rr_listed b d [("rr/node1"%string, 4); ("rr/node10"%string, 4)] = (if String.eqb d "rr/node1"%string then [4] else if String.eqb d "rr/node10"%string then [4] else []))
+  else (exists index bal, rr_listed b "rr/node1"%string index = [4; 4] /\ (forall h, 0 <= bal h) /\ bal 4 <= 10 /\
+        rr_allocate 51 10 bal (rr_listed b "rr/node1"%string index) = Panic "neg-coin").
+Proof.
+  intros [|].
+  - intros d. unfold rr_listed. cbn [filter fst snd map]. destruct (String.eqb "rr/node1"%string d) eqn:E1.
+    + apply String.eqb_eq in E1. subst d. reflexivity.
+    + rewrite String.eqb_sym in E1. rewrite E1. destruct (String.eqb "rr/node10"%string d) eqn:E2.
+      * apply String.eqb_eq in E2. subst d. reflexivity.
+      * rewrite String.eqb_sym in E2. rewrite E2. reflexivity.
+  - exists [("rr/node1"%string, 4); ("rr/node10"%string, 4)], (fun _ => 6). split; [reflexivity|]. split; [intros; lia|]. split; [lia|]. vm_compute. reflexivity.
+Qed.
+
 (* ------------------------------------------------------------------ upgrade: the only deliberate stop *)
 Lemma upgrade_halt_only_when_due : forall due processed instate h skip,
   is_panic (upgrade_begin due processed instate h skip) = true -> due = true /\ processed = true.
